@@ -4,6 +4,7 @@ go 1.25.0
 
 require (
 	github.com/aws/aws-sdk-go v1.55.8
+	github.com/jrhy/mast v1.2.33
 	github.com/jrhy/s3db v0.0.0
 	github.com/mattn/go-sqlite3 v1.14.49
 	google.golang.org/protobuf v1.36.12
@@ -14,7 +15,6 @@ require (
 	github.com/jmespath/go-jmespath v0.4.0 // indirect
 	github.com/johannesboyne/gofakes3 v1.2.0 // indirect
 	github.com/johncgriffin/overflow v0.0.0-20211019200055-46fa312c352c // indirect
-	github.com/jrhy/mast v1.2.33 // indirect
 	github.com/mattn/go-pointer v0.0.1 // indirect
 	github.com/minio/blake2b-simd v0.0.0-20160723061019-3f5f724cb5b1 // indirect
 	github.com/ryszard/goskiplist v0.0.0-20150312221310-2dfbae5fcf46 // indirect
